@@ -98,7 +98,15 @@ impl AutoReloader {
             #[cfg(feature = "verif_hooks")]
             verif::yield_point("after_reset");
             if mutex_guard.is_none() || !self.notifier.fast_reload() {
-                *mutex_guard = Some((self.env_creator)(weak_notifier)?);
+                match (self.env_creator)(weak_notifier) {
+                    Ok(env) => *mutex_guard = Some(env),
+                    Err(err) => {
+                        // the reload did not happen, so the request is still
+                        // pending for the next call.
+                        self.notifier.request_reload();
+                        return Err(err);
+                    }
+                }
             } else {
                 mutex_guard.as_mut().unwrap().clear_templates();
             }
